@@ -42,7 +42,7 @@ THEOREMS = {
             "Rot.C14_index_sequence_eq", "Rot.write_dropped", "Rot.C14_index_nothing_dropped_without_overwrite",
             "Rot.C14_junk_removed_by_cleanup", "Rot.C14_write_mode_without_cleanup_overwrites",
             "Rot.C14_F30_json_counts_statement_size", "Rot.writeC_self",
-            "Rot.C14_index_all_files_within_limit", "Rot.write_limInv", "Rot.restart_limInv", "Rot.C14_stopped_file_rotated_oversized",
+            "Rot.write_limInv_dated", "Rot.C14_index_all_files_within_limit", "Rot.write_limInv", "Rot.restart_limInv", "Rot.C14_stopped_file_rotated_oversized",
             # rendered names for any base file name (Props/C14Render.lean)
             "Rot.C14_render_injective", "Rot.C14_render_collides_across_schemes", "Rot.C14_rendered_names_distinct_partial",
             "Rot.C14_rendered_names_distinct", "Rot.renderSfx_inj", "Rot.renderSfx_dotFree_ne_nil", "Rot.civil_eq",
@@ -59,7 +59,7 @@ THEOREMS = {
             "Obligations.rot_time_extraction_complete", "Obligations.rot_time_facts_hold", "Obligations.rot_advances_from_schedule",
             "Obligations.C15_extracted"],
 }
-MODULES = {"C14": ["QuillModel.Props.C14", "QuillModel.Props.C15Schedule", "QuillModel.Props.C14Dated", "QuillModel.Props.C14Render", "QuillModel.Props.C14More"], "C15": ["QuillModel.Props.C15", "QuillModel.Props.C15Schedule", "QuillModel.Props.C15Compose"]}
+MODULES = {"C14": ["QuillModel.Props.C14", "QuillModel.Props.C15Schedule", "QuillModel.Props.C14Dated", "QuillModel.Props.C14Render", "QuillModel.Props.C14More", "QuillModel.Props.C14DatedLimit"], "C15": ["QuillModel.Props.C15", "QuillModel.Props.C15Schedule", "QuillModel.Props.C15Compose"]}
 OBLIG = {"C14": ["QuillModel.Obligations.RotSize"], "C15": ["QuillModel.Obligations.RotTime"]}
 
 C14_ORACLES = ("dup-id", "torn", "not-in-cur", "order", "not-suffix", "over-limit", "backup-bound", "backup-shrink", "ow-off-deleted")
